@@ -1,8 +1,8 @@
 #!/verif/.venv/bin/python
 # Replay of a solver counterexample against the unmodified code (no shims).
-# property=C15 kernel=drift label=k4:modify_compensates_drift
+# property=C15 kernel=drift label=k4:pulse_phase_compensates_drift
 import sys
 sys.path[:0] = ["/repo/pulser-core", "/repo/pulser-simulation", "/verif"]
 from symx.replay import replay
-sys.exit(replay(check='checks.c15', kernel='drift', shape={'cfg': {'lim': 'R', 'ctrl': ['B', 'R']}, 'program': [['add'], ['enable', 1.0, 0.0, 0.0], ['delay'], ['modify', 2.0, 3.0, -5.0], ['delay'], ['modify', 1.0, 0.0, 0.0], ['eom_pulse', 0.5], ['disable']], 'custom_buffer': 40, 'kmax': 12},
-                assignment={'d0/k': 2, 'buf#1.start': 0, 'buf#1.end': 0, 'buf#2.start': 0, 'buf#2.end': 1, 'd2/k': 2, 'd4/k': 2, 'd6/k': 2, 'buf#7.start': 0, 'buf#7.end': 9, 'buf#8.start': 0, 'buf#8.end': 10}, label='k4:modify_compensates_drift'))
+sys.exit(replay(check='checks.c15', kernel='drift', shape={'cfg': {'lim': 'R', 'ctrl': ['B']}, 'program': [['enable', 1.0, 0.0, 0.0], ['eom_pulse', 0.0], ['delay'], ['eom_pulse', 1.0], ['disable']], 'custom_buffer': 40, 'kmax': 12},
+                assignment={'d1/k': 2, 'd2/k': 2, 'd3/k': 2, 'buf#1.start': 0, 'buf#1.end': 3, 'buf#2.start': 0, 'buf#2.end': 3}, label='k4:pulse_phase_compensates_drift'))
